@@ -23,7 +23,8 @@ def run_mgm(eng, p):
     if algo == "mgm2":
         from pydcop.algorithms.mgm2 import Mgm2Computation
         Mgm2Computation._compute_cost.cache_clear()
-    inst = Instance(eng, p["spec"])
+    lo, hi = p.get("range", (-BIG, BIG))
+    inst = Instance(eng, p["spec"], lo=lo, hi=hi)
     params = {"stop_cycle": p["stop"]}
     params.update(p.get("params", {}))
     cg, comps = build_computations(inst.dcop, algo, inst.mode, params)
